@@ -15,6 +15,9 @@ def build(P):
     setup(P)
     P.verify(E.SE + "StateEngine.start_execution", R.start_execution_contract(), tags=("C02",))
     P.verify(E.SE + "StateEngine.end_execution", R.end_execution_contract(), tags=("C02",))
+    from contracts import handlers as _H
+    _c = _H.handle_terminal_state_contract()
+    P.verify(_c.key, _c, tags=("C02",), timeout=30)
     P.native("expired-backstop", "natives.c02:expired_backstop", kind="bounded", clause="C02:",
              bound="one scenario: Parallel with two stuck task branches past TimeoutSeconds, three heartbeat back-stop rounds; the "
                    "execution must end exactly once (real StateEngine.heartbeat / check_for_expired_branch_results / end_execution)")
